@@ -361,6 +361,24 @@ fn arb_edit(len: usize) -> BoxedStrategy<Edit> {
     .boxed()
 }
 
+pub const WRAPPED_FORMS: usize = 10;
+/// The digits of `t` with what the library's formatting traits (or a user's habit) put around them.
+pub fn wrapped_form(n: usize, t: &Tt, k: usize) -> String {
+    let (h, b) = (t.to_hex(), t.to_bin());
+    match k {
+        0 => format!("Lut{}({})", n, h),
+        1 => format!("Lut{}({})", n, b),
+        2 => format!("0x{}", h),
+        3 => format!("0b{}", b),
+        4 => format!("({})", h),
+        5 => format!("Lut{}({})", n + 1, h),
+        6 => format!("Lut{}({}", n, h),
+        7 => format!("{}h", h),
+        8 => format!("{}'h{}", 1usize << n, h),
+        _ => format!("Lut{}({})", n, h.to_uppercase()),
+    }
+}
+
 /// Strings offered to from_hex_string for n variables: the print of a generated table with 0, 1
 /// or 2 structured corruptions, single digits for tiny n, and arbitrary short text.
 pub fn arb_hex_input(n: usize) -> BoxedStrategy<String> {
@@ -372,12 +390,16 @@ pub fn arb_hex_input(n: usize) -> BoxedStrategy<String> {
     let digits = vec((0u32..16).prop_map(|d| std::char::from_digit(d, 16).unwrap()), width)
         .prop_map(|v| v.into_iter().collect::<String>());
     let short = vec(arb_char(), 0..=std::cmp::min(width + 2, 6)).prop_map(|v| v.into_iter().collect::<String>());
+    // what the library's own formatting traits (or a user's habit) put around the digits: none of
+    // it is in the accept set, so every such string must be rejected
+    let wrapped = (arb_tt(n), 0usize..WRAPPED_FORMS).prop_map(move |(t, k)| wrapped_form(n, &t, k));
     prop_oneof![
         3 => printed,
         6 => one_edit,
         2 => two_edits,
         2 => digits,
         1 => short,
+        1 => wrapped,
     ]
     .boxed()
 }
